@@ -67,6 +67,93 @@ Proof.
   unfold is_special_key. rewrite K4, K5, K6. reflexivity.
 Qed.
 
+Lemma lead_text_lookup val val' :
+  lookup (textK o) val = lookup (textK o) val' -> lead_text o val = lead_text o val'.
+Proof. intros H. unfold lead_text. rewrite H. reflexivity. Qed.
+
+(* ---- an element with children: the general path, with or without a leading text run ---- *)
+Lemma enc_general nm a kids (na1 : entries) (sq1 : Z) (tv : option value) :
+  name_ok o nm = true ->
+  nodup_keys (map aname_full a) = true ->
+  kids <> [] ->
+  forallb (node_ok o) kids = true ->
+  at_most_one is_comment kids = true -> at_most_one is_directive kids = true -> at_most_one is_procinst kids = true ->
+  Forall (kid_enc pf skip e) kids ->
+  (forall K, str_eqb K (attrK o) = false -> str_eqb K (textK o) = false -> str_eqb K (seqK o) = false ->
+             lookup K na1 = None) ->
+  lookup (attrK o) na1 = lookup (attrK o) (ina a) ->
+  lookup (textK o) na1 = tv ->
+  lookup (seqK o) na1 = match tv with Some _ => Some (VInt 0) | None => None end ->
+  length na1 = length (ina a) + match tv with Some _ => 2 | None => 0 end ->
+  unroll o na1 = [] ->
+  let naf := fst (fold_left kstep kids (na1, sq1)) in
+  let its := SI (IOpen (xfull nm) (aitems a)) :: lead_text o na1 ++ flat_map (items false) kids ++ [SI (IClose (xfull nm))] in
+  (forall sq, senc o (injv (finish naf) sq) (xfull nm) = Ok its) /\ senc o (finish naf) (xfull nm) = Ok its.
+Proof.
+  intros Hname Hnodup Hkne Hkids Hc1 Hd1 Hp1 HIH HP1 HP2 HP3 HP3s HP4 HP5 naf its.
+  assert (Hsp := special_of_name nm Hname).
+  assert (Hkn := forallb_kid_name e kids Hkids).
+  assert (Hnot : forall K, In K [textK o; seqK o; attrK o] ->
+                           forall k, In k kids -> str_eqb K (kkey k) = false).
+  { intros K HK k Hk. apply kid_key_not; [|exact HK].
+    rewrite forallb_forall in Hkn. apply Hkn. exact Hk. }
+  assert (Lattr : lookup (attrK o) naf = lookup (attrK o) (ina a)).
+  { unfold naf. rewrite fold_lookup; [exact HP2|]. apply Hnot. right; right; left; reflexivity. }
+  assert (Ltext : lookup (textK o) naf = tv).
+  { unfold naf. rewrite fold_lookup; [exact HP3|]. apply Hnot. left; reflexivity. }
+  assert (Lseq : lookup (seqK o) naf = match tv with Some _ => Some (VInt 0) | None => None end).
+  { unfold naf. rewrite fold_lookup; [exact HP3s|]. apply Hnot. right; left; reflexivity. }
+  assert (Llen : S (length na1) <= length naf).
+  { unfold naf. destruct kids as [|k1 kt]; [congruence|].
+    cbn [fold_left]. unfold kid_step at 2. cbn [fst snd].
+    rewrite kid_put_absent.
+    - etransitivity; [|apply fold_length]. rewrite app_length. cbn [length]. lia.
+    - apply HP1; rewrite str_eqb_sym.
+      + apply (Hnot (attrK o)); [right; right; left; reflexivity|left; reflexivity].
+      + apply (Hnot (textK o)); [left; reflexivity|left; reflexivity].
+      + apply (Hnot (seqK o)); [right; left; reflexivity|left; reflexivity]. }
+  assert (Hperm : Permutation (unroll o naf) (Es pf skip e kids sq1)).
+  { unfold naf. rewrite (fold_unroll pf skip e kids na1 sq1 Hkn).
+    - rewrite HP5. reflexivity.
+    - apply fresh_of_absent; [apply HP1; reflexivity|exact Hc1].
+    - apply fresh_of_absent; [apply HP1; reflexivity|exact Hd1].
+    - apply fresh_of_absent; [apply HP1; reflexivity|exact Hp1]. }
+  assert (Hsat : sattrs o naf = Ok (has_attrs a, aitems a)).
+  { rewrite (sattrs_lookup_eq e naf (ina a) Lattr). apply sattrs_init. exact Hnodup. }
+  assert (Hlen0 : length (ina a) = if has_attrs a then 1 else 0).
+  { rewrite (init_na_spec pf skip e a Hnodup). destruct a; reflexivity. }
+  assert (Hbody := sconcat_kids pf skip e kids sq1 HIH Hkids).
+  assert (Hfin : finish naf = VMap naf).
+  { destruct naf; [cbn [length] in Llen; lia|reflexivity]. }
+  assert (Hlead : forall val, lookup (textK o) val = tv -> lead_text o val = lead_text o na1).
+  { intros val Hv. apply lead_text_lookup. rewrite Hv, HP3. reflexivity. }
+  rewrite Hfin. split.
+  - intros sq. unfold inj. cbn [seq_inject fst].
+    assert (Lt' : lookup (textK o) (set (seqK o) (VInt sq) naf) = tv).
+    { rewrite lookup_set_other; [exact Ltext|reflexivity]. }
+    rewrite (senc_general e (xfull nm) (set (seqK o) (VInt sq) naf) (has_attrs a) (aitems a)
+               (Es pf skip e kids sq1) Hsp).
+    + rewrite Hbody. cbn [bind]. rewrite (Hlead _ Lt'). reflexivity.
+    + rewrite <- Hsat. apply sattrs_lookup_eq. apply lookup_set_other. reflexivity.
+    + rewrite Lt'. destruct tv as [v|].
+      * assert (L := set_length_ge (seqK o) (VInt sq) naf).
+        replace (length (set (seqK o) (VInt sq) naf) =? (if has_attrs a then 3 else 2)) with false; [reflexivity|].
+        symmetry. apply Nat.eqb_neq. destruct (has_attrs a); lia.
+      * rewrite (set_absent _ _ _ Lseq). rewrite app_length. cbn [length].
+        replace (length naf + 1 =? (if has_attrs a then 2 else 1)) with false; [reflexivity|].
+        symmetry. apply Nat.eqb_neq. destruct (has_attrs a); lia.
+    + rewrite unroll_set_skipped; [exact Hperm|reflexivity].
+    + apply Es_sorted.
+  - rewrite (senc_general e (xfull nm) naf (has_attrs a) (aitems a) (Es pf skip e kids sq1) Hsp Hsat).
+    + rewrite Hbody. cbn [bind]. rewrite (Hlead _ Ltext). reflexivity.
+    + rewrite Ltext. destruct tv as [v|].
+      * replace (length naf =? (if has_attrs a then 3 else 2)) with false; [reflexivity|].
+        symmetry. apply Nat.eqb_neq. destruct (has_attrs a); lia.
+      * unfold has_key. rewrite Lseq. apply andb_false_r.
+    + exact Hperm.
+    + apply Es_sorted.
+Qed.
+
 (* ---- the main induction ---- *)
 Lemma enc_all d : kid_enc pf skip e d /\ root_enc pf skip e d.
 Proof.
@@ -74,13 +161,12 @@ Proof.
   2:{ split; [intros _ sq; reflexivity|intros _ H; discriminate H]. }
   2:{ split; [intros _ sq; reflexivity|intros _ H; discriminate H]. }
   2:{ split; [intros _ sq; reflexivity|intros _ H; discriminate H]. }
-  assert (Main : node_ok o true (NElem nm a text kids) = true ->
+  assert (Main : node_ok o (NElem nm a text kids) = true ->
                  (forall sq, senc o (injv (nval (NElem nm a text kids)) sq) (xfull nm) = Ok (items false (NElem nm a text kids)))
                  /\ senc o (nval (NElem nm a text kids)) (xfull nm) = Ok (items true (NElem nm a text kids))).
   2:{ split; [intros Hok sq; apply (proj1 (Main Hok))|intros Hok _; apply (proj2 (Main Hok))]. }
   intros Hok. cbn [node_ok] in Hok.
   apply andb_true_iff in Hok. destruct Hok as [Hok Hkids].
-  apply andb_true_iff in Hok. destruct Hok as [Hok Halone].
   apply andb_true_iff in Hok. destruct Hok as [Hok Hp1].
   apply andb_true_iff in Hok. destruct Hok as [Hok Hd1].
   apply andb_true_iff in Hok. destruct Hok as [Hok Hc1].
@@ -89,95 +175,50 @@ Proof.
   unfold attrs_ok in Hattrs. apply andb_true_iff in Hattrs. destruct Hattrs as [Hnodup Hvals].
   change (map (fun at_ : xattr => xfull (aname at_)) a) with (map aname_full a) in Hnodup.
   assert (Hsp := special_of_name nm Hname).
-  assert (Hkeys := name_ok_keys e nm Hname).
-  unfold text_ok in Htext. apply andb_true_iff in Htext. destruct Htext as [Htv Htb].
-  apply negb_true_iff in Htb.
-  assert (Htrim := trim_decoder_xml text Htb).
   rewrite node_val_elem. cbn [items_of]. unfold text_state.
-  destruct (trim trim_all text) as [|c x] eqn:Et.
-  - (* no text *)
-    destruct kids as [|k1 kt].
-    + (* empty element *)
-      cbn [fold_left fst]. rewrite (init_na_spec pf skip e a Hnodup).
-      destruct a as [|at_ ta].
-      * cbn [finish has_attrs andb]. split.
-        -- intros sq. apply (senc_empty_noattr (xfull nm) sq Hsp).
-        -- apply (senc_empty_root (xfull nm) Hsp).
-      * cbn [finish has_attrs andb]. split.
-        -- intros sq. apply (senc_attronly (xfull nm) (at_ :: ta) sq Hsp).
-        -- apply (senc_attronly_root (xfull nm) (at_ :: ta) Hsp).
-    + (* children, no text: the general path *)
-      set (kids := k1 :: kt) in *.
-      set (naf := fst (fold_left kstep kids (ina a, 0%Z))).
-      assert (Hkn := forallb_kid_name e kids Hkids).
-      assert (Hnot : forall K, In K [textK o; seqK o; attrK o] ->
-                               forall k, In k kids -> str_eqb K (kkey k) = false).
-      { intros K HK k Hk. apply kid_key_not; [|exact HK].
-        rewrite forallb_forall in Hkn. apply Hkn. exact Hk. }
-      assert (Lattr : lookup (attrK o) naf = lookup (attrK o) (ina a)).
-      { apply fold_lookup. apply Hnot. right; right; left; reflexivity. }
-      assert (Ltext : lookup (textK o) naf = None).
-      { unfold naf. rewrite fold_lookup; [|apply Hnot; left; reflexivity].
-        rewrite (init_na_spec pf skip e a Hnodup). destruct a; reflexivity. }
-      assert (Lseq : lookup (seqK o) naf = None).
-      { unfold naf. rewrite fold_lookup; [|apply Hnot; right; left; reflexivity].
-        rewrite (init_na_spec pf skip e a Hnodup). destruct a; reflexivity. }
-      assert (Llen : S (length (ina a)) <= length naf).
-      { unfold naf, kids. cbn [fold_left]. unfold kid_step at 2. cbn [fst snd].
-        rewrite kid_put_absent.
-        - etransitivity; [|apply fold_length]. rewrite app_length. cbn [length]. lia.
-        - rewrite (init_na_spec pf skip e a Hnodup).
-          assert (Hk1 : str_eqb (kkey k1) (attrK o) = false).
-          { rewrite str_eqb_sym. apply (Hnot (attrK o)); [right; right; left; reflexivity|left; reflexivity]. }
-          destruct a; cbn [lookup]; [reflexivity|]. rewrite Hk1. reflexivity. }
-      assert (Hperm : Permutation (unroll o naf) (Es pf skip e kids 0%Z)).
-      { unfold naf. rewrite (fold_unroll pf skip e kids (ina a) 0%Z Hkn).
-        - rewrite (init_na_spec pf skip e a Hnodup). destruct a; reflexivity.
-        - apply fresh_init; [exact Hnodup|reflexivity|exact Hc1].
-        - apply fresh_init; [exact Hnodup|reflexivity|exact Hd1].
-        - apply fresh_init; [exact Hnodup|reflexivity|exact Hp1]. }
-      assert (Hsat : sattrs o naf = Ok (has_attrs a, aitems a)).
-      { rewrite (sattrs_lookup_eq e naf (ina a) Lattr). apply sattrs_init. exact Hnodup. }
-      assert (Hlen0 : length (ina a) = if has_attrs a then 1 else 0).
-      { rewrite (init_na_spec pf skip e a Hnodup). destruct a; reflexivity. }
-      assert (HIH : Forall (kid_enc pf skip e) kids).
-      { eapply Forall_impl; [|exact IH]. cbn beta. intros k Hk. apply Hk. }
-      assert (Hbody := sconcat_kids pf skip e kids 0%Z HIH Hkids).
-      assert (Hfin : finish naf = VMap naf).
-      { destruct naf; [cbn [length] in Llen; lia|reflexivity]. }
-      rewrite Hfin. split.
-      * intros sq. unfold inj. cbn [seq_inject fst].
-        rewrite (set_absent _ _ _ Lseq).
-        rewrite (senc_general e (xfull nm) (naf ++ [(seqK o, VInt sq)]) (has_attrs a) (aitems a)
-                   (Es pf skip e kids 0%Z) Hsp).
-        -- rewrite Hbody. reflexivity.
-        -- rewrite <- Hsat. apply sattrs_lookup_eq. rewrite lookup_app.
-           destruct (lookup (attrK o) naf); reflexivity.
-        -- rewrite lookup_app, Ltext. reflexivity.
-        -- rewrite app_length. cbn [length].
-           replace (length naf + 1 =? (if has_attrs a then 2 else 1)) with false; [reflexivity|].
-           symmetry. apply Nat.eqb_neq. destruct (has_attrs a); lia.
-        -- rewrite unroll_app. change (unroll o [(seqK o, VInt sq)]) with (@nil (str * value)).
-           rewrite app_nil_r. exact Hperm.
-        -- apply Es_sorted.
-        -- apply Es_maps.
-      * rewrite (senc_general e (xfull nm) naf (has_attrs a) (aitems a) (Es pf skip e kids 0%Z) Hsp Hsat Ltext).
-        -- rewrite Hbody. reflexivity.
-        -- unfold has_key. rewrite Lseq. apply andb_false_r.
-        -- exact Hperm.
-        -- apply Es_sorted.
-        -- apply Es_maps.
-  - (* text: by the domain the element has no children *)
-    assert (Hk0 : kids = []).
-    { rewrite <- Htrim in Halone. cbn [nonempty negb orb] in Halone.
-      destruct kids; [reflexivity|discriminate Halone]. }
-    subst kids. cbn [fold_left fst]. rewrite (init_na_spec pf skip e a Hnodup).
-    destruct a as [|at_ ta].
-    + split.
-      * intros sq. apply (senc_text_noattr (xfull nm) c x sq Hsp).
-      * apply (senc_text_noattr (xfull nm) c x 0%Z Hsp).
-    + split.
-      * intros sq. apply (senc_text_attr (xfull nm) (at_ :: ta) c x sq Hsp).
-      * apply (senc_text_attr (xfull nm) (at_ :: ta) c x 0%Z Hsp).
+  destruct kids as [|k1 kt].
+  - (* no children: the simple-element shapes *)
+    cbn [fold_left].
+    destruct (trim trim_all text) as [|c x] eqn:Et; cbn [fst]; rewrite (init_na_spec pf skip e a Hnodup);
+      destruct a as [|at_ ta]; cbn [finish has_attrs andb]; split.
+    + intros sq. apply (senc_empty_noattr (xfull nm) sq Hsp).
+    + apply (senc_empty_root (xfull nm) Hsp).
+    + intros sq. apply (senc_attronly (xfull nm) (at_ :: ta) sq Hsp).
+    + apply (senc_attronly_root (xfull nm) (at_ :: ta) Hsp).
+    + intros sq. apply (senc_text_noattr (xfull nm) c x sq Hsp).
+    + apply (senc_text_noattr (xfull nm) c x 0%Z Hsp).
+    + intros sq. apply (senc_text_attr (xfull nm) (at_ :: ta) c x sq Hsp).
+    + apply (senc_text_attr (xfull nm) (at_ :: ta) c x 0%Z Hsp).
+  - (* children *)
+    assert (HIH : Forall (kid_enc pf skip e) (k1 :: kt)).
+    { eapply Forall_impl; [|exact IH]. cbn beta. intros k Hk. apply Hk. }
+    destruct (trim trim_all text) as [|c x] eqn:Et; cbn [fst snd].
+    + (* no text *)
+      assert (G := enc_general nm a (k1 :: kt) (ina a) 0%Z None Hname Hnodup ltac:(discriminate) Hkids Hc1 Hd1 Hp1 HIH).
+      assert (Hl : lead_text o (ina a) = []).
+      { unfold lead_text. rewrite (init_na_spec pf skip e a Hnodup). destruct a; reflexivity. }
+      rewrite Hl in G. apply G; clear G Hl.
+      * intros K K1 K2 K3. rewrite (init_na_spec pf skip e a Hnodup). destruct a; cbn [lookup]; [reflexivity|].
+        rewrite K1. reflexivity.
+      * reflexivity.
+      * rewrite (init_na_spec pf skip e a Hnodup). destruct a; reflexivity.
+      * rewrite (init_na_spec pf skip e a Hnodup). destruct a; reflexivity.
+      * lia.
+      * rewrite (init_na_spec pf skip e a Hnodup). destruct a; reflexivity.
+    + (* a text run ahead of the children *)
+      assert (G := enc_general nm a (k1 :: kt)
+                     (set (seqK o) (VInt 0) (set (textK o) (VStr (c :: x)) (ina a))) 1%Z (Some (VStr (c :: x)))
+                     Hname Hnodup ltac:(discriminate) Hkids Hc1 Hd1 Hp1 HIH).
+      assert (Hl : lead_text o (set (seqK o) (VInt 0) (set (textK o) (VStr (c :: x)) (ina a)))
+                   = [SI (IText (esc o (c :: x)))]).
+      { unfold lead_text. rewrite lookup_set_other; [|reflexivity]. rewrite lookup_set_same. reflexivity. }
+      rewrite Hl in G. apply G; clear G Hl.
+      * intros K K1 K2 K3. rewrite lookup_set_other; [|exact K3]. rewrite lookup_set_other; [|exact K2].
+        rewrite (init_na_spec pf skip e a Hnodup). destruct a; cbn [lookup]; [reflexivity|]. rewrite K1. reflexivity.
+      * rewrite lookup_set_other; [|reflexivity]. rewrite lookup_set_other; [|reflexivity]. reflexivity.
+      * rewrite lookup_set_other; [|reflexivity]. apply lookup_set_same.
+      * apply lookup_set_same.
+      * rewrite (init_na_spec pf skip e a Hnodup). destruct a; reflexivity.
+      * rewrite (init_na_spec pf skip e a Hnodup). destruct a; reflexivity.
 Qed.
 End Main.
